@@ -183,7 +183,7 @@ def parse_kani(out):
         res["checks_total"] += 1
         if st == "FAILURE":
             res["failed"].append({"desc": norm_desc(c["desc"]), "loc": c.get("loc") or "", "name": c["name"]})
-        elif st == "UNDETERMINED":
+        elif st in ("UNDETERMINED", "ERROR"):
             res["undetermined"] += 1
     m = re.search(r"^VERIFICATION:- (\w+)(.*)$", out, re.M)
     if m:
@@ -226,6 +226,10 @@ def run_kani(job, scratch):
         r["status"] = "error"
         tail = out.strip().splitlines()[-15:]
         r["detail"] = "no verdict from Kani/CBMC (rc=%s): %s" % (rc, " | ".join(tail))
+        return r, out
+    if p["verdict"] != "SUCCESSFUL" and not p["failed"] and not p["mustnot_sat"] and not p["covers_unsat"]:
+        r["status"] = "error"
+        r["detail"] = "Kani verdict %s without a failed check (CBMC crash / out of memory?)" % p["verdict"]
         return r, out
     if job.stubbing and not p["stubs"]:
         r["status"] = "error"
